@@ -393,6 +393,42 @@ def r38_valid(repo, sink):
         else:
             sink.ok("R38", f"validate:{name}", f, f"{'rejected: ' + ', '.join(sorted(want)) if want else 'accepted'}")
     sink.floor("R38", "validation topologies", n, 60)
+    # validation has no memory: a set-up that was rejected, then completed by a link that creates a NEW defect in a part that had
+    # passed before, is rejected again (connect() may be called again after a FinamConnectError)
+    try:
+        t = Topo(repo)
+        a, b, c2 = t.comp("A"), t.comp("B"), t.comp("C")
+        o = t.output(a)
+        el = t.link(o, ["NextTime"], None)
+        t.link(o, el, b)            # A >> NextTime >> B.in: fine
+        t.link(None, [], c2)        # C.in unconnected: rejected
+        members = [a, b, c2]
+        me = t.composition(members)
+        for k in t.comps.values():
+            k.fields["logger"] = Logger(label="logger")
+        it = SchedInterp(repo)
+        first = second = None
+        try:
+            it.run(f, [], self_obj=me)
+        except Raised as r:
+            first = r.name
+        # the user completes the set-up: C.in is linked below the no-branch adapter of A's chain (a disallowed fan-out)
+        inp_c = next(iter(c2.fields["inputs"].values()))
+        it2 = SchedInterp(repo)
+        it2.run(repo.resolve(el[-1].cls, "chain", "method"), [inp_c], self_obj=el[-1])
+        if inp_c not in el[-1].fields["targets"]:  # (the topology stand-ins mirror source / targets next to what the real chain() stored)
+            el[-1].fields["targets"].append(inp_c)
+        inp_c.fields["source"] = el[-1]
+        try:
+            it.run(f, [], self_obj=me)
+        except Raised as r:
+            second = r.name
+        sink.check(first == "FinamConnectError" and second == "FinamConnectError", "R38", "validate:again-after-rejection", f,
+                   ok="a rejected set-up that is completed by a link creating a fan-out below a no-branch adapter is rejected again",
+                   bad=f"first validation: {first or 'passes'} (an unconnected input), second validation after linking that input below the no-branch adapter of a "
+                       f"chain that had passed: {second or 'passes'} - what passed once is not looked at again, the disallowed fan-out goes through")
+    except (Undecided, AnalysisError, KeyError, StopIteration) as exc:
+        sink.unknown("R38", "validate:again-after-rejection", f, f"outside vocabulary: {exc}")
     # validation precedes any exchange (order in connect() is R06); here: all four checks are called for every slot
     # every kind of defect is represented by a topology whose ONLY defect it is: a check that is no longer applied shows up there
     missing = [k for k in ("unconnected", "static-input-nonstatic-output", "dead-link", "branching", "missing-upstream", "missing-downstream") if k not in sole_kinds]
@@ -409,22 +445,46 @@ def _metadata_links(repo, sink):
     if g is None:
         sink.unknown("R38", "metadata-links", None, "Composition.metadata not found")
         return
+    for variant in ("fan-and-chain", "side-chain-without-consumer:consumer-listed-first", "side-chain-without-consumer:producer-listed-first"):
+        _metadata_links_case(repo, sink, comp_cls, g, variant)
+
+
+def _metadata_links_case(repo, sink, comp_cls, g, variant):
     t = Topo(repo)
-    a, b, c = t.comp("A"), t.comp("B"), t.comp("C")
-    o = t.output(a)
-    el = t.link(o, ["Scale"], None)
-    t.link(o, el, b)
-    t.link(o, el + ["NextTime"], c)
-    o2 = t.output(b)
-    t.link(o2, [], c, "in2")
+    key = "metadata-links" if variant == "fan-and-chain" else f"metadata-links:{variant}"
+    if variant == "fan-and-chain":
+        a, b, c = t.comp("A"), t.comp("B"), t.comp("C")
+        o = t.output(a)
+        el = t.link(o, ["Scale"], None)
+        t.link(o, el, b)
+        t.link(o, el + ["NextTime"], c)
+        o2 = t.output(b)
+        t.link(o2, [], c, "in2")
+        outs, members = [o, o2], None
+    else:
+        # an adapter that feeds a consumer AND a chain of adapters nobody reads (legal: connect and run work); the walk from the
+        # consumer's input reaches the shared adapter before the walk from the producer's output does when the consumer is listed first
+        a, b = t.comp("A"), t.comp("B")
+        o = t.output(a)
+        el = t.link(o, ["Scale"], None)
+        t.link(o, el, b)
+        t.link(o, el + ["Scale", "Scale"], None)
+        outs, members = [o], ([b, a] if "consumer-listed-first" in variant else [a, b])
     adapters = set()
     for (out, elems, comp, inp) in t.links:
         adapters |= set(elems)
     for k in t.comps.values():
         k.fields["metadata"] = {}
+    stack = list(outs)
+    while stack:
+        el = stack.pop()
+        for tg in el.fields.get("targets", []):
+            if "targets" in tg.fields and tg not in adapters:
+                adapters.add(tg)
+                stack.append(tg)
     for ad in adapters:
         ad.fields["metadata"] = {}
-    me = t.composition()
+    me = t.composition(members) if members is not None else t.composition()
     it = SchedInterp(repo)
     try:
         # adapters found by the real collection; "connected" as connect() itself marks it
@@ -436,15 +496,23 @@ def _metadata_links(repo, sink):
             me.fields[fl] = True
         md = it.run(g, [], self_obj=me)
     except (Raised, Undecided, AnalysisError) as exc:
-        sink.unknown("R38", "metadata-links", g, f"metadata not in vocabulary: {exc}")
+        sink.unknown("R38", key, g, f"metadata not in vocabulary: {exc}")
         return
     links = md.get("links") if isinstance(md, dict) else None
-    want = 0
-    for el in [o, o2] + list(adapters):
-        want += len(el.fields["targets"])
+    want, stack, seen_el = 0, list(outs), set()
+    while stack:  # every link that was created: from the outputs down through all adapters, read by someone or not
+        el = stack.pop()
+        if id(el) in seen_el:
+            continue
+        seen_el.add(id(el))
+        for tg in el.fields.get("targets", []):
+            want += 1
+            if "targets" in tg.fields:
+                stack.append(tg)
     ok = isinstance(links, list) and len(links) == want
-    sink.check(ok, "R38", "metadata-links", g, ok=f"{want} created links, {want} reported",
-               bad=f"metadata reports {len(links) if isinstance(links, list) else links} links, {want} were created")
+    sink.check(ok, "R38", key, g, ok=f"{want} created links, {want} reported",
+               bad=f"metadata reports {len(links) if isinstance(links, list) else links} links, {want} were created ({variant}): adapters on a branch are not found "
+                   "(they are then not finalized either)")
 
 
 def _adapter_metadata(repo, sink):
